@@ -157,4 +157,62 @@ theorem poll_terminates (cfg : Cfg) (ops : List Op) (fuel : Nat)
 
 example : measure (init cfgEx) = 3 * 2 + 2 := by decide
 
+/-! ## C01, worker side
+
+What C01 ("each accepted connection reaches exactly one call of its listener's service, never
+silently discarded") asks of the worker, over the same model and for every history. -/
+
+/-- **Routing by token**: every `call` in the log goes to the service registered for the connection's
+listener token (`tok = c.2`), and that service exists (`tok < n`) — never to another listener's service. -/
+theorem call_goes_to_token (cfg : Cfg) (ops : List Op) (tok inc : Nat) (c : Conn)
+    (h : Ev.call tok inc c ∈ (run (init cfg) ops).log) : tok = c.2 ∧ tok < cfg.n := by
+  have hm := More.run ops _ (More.init cfg) (Good.init cfg)
+  have := hm.calls _ h
+  rw [run_n] at this
+  exact this
+
+example : Ev.call 1 0 (0, 1) ∈ (run (init cfgEx) [.conn 1, .conn 0, .poll 9, .poll 9]).log := by decide
+
+/-- **Distinct ids**: the connections sent to the worker carry the ids `0, 1, …, nextConn-1`, in order. -/
+theorem sent_ids_distinct (cfg : Cfg) (ops : List Op) :
+    (run (init cfg) ops).sent.map (·.1) = List.range (run (init cfg) ops).nextConn :=
+  (More.run ops _ (More.init cfg) (Good.init cfg)).ids
+
+/-- **Exactly once**: no connection is taken from the channel twice — the connections handed to a
+service, released or dropped are pairwise distinct; in particular no connection is called twice, and
+none is both called and released/dropped. -/
+theorem no_connection_handled_twice (cfg : Cfg) (ops : List Op) :
+    (handled (run (init cfg) ops).log).Nodup ∧ (callsOf (run (init cfg) ops).log).Nodup := by
+  have nodup_of_map_fst : ∀ (l : List Conn), (l.map (·.1)).Nodup → l.Nodup := by
+    intro l
+    induction l with
+    | nil => intro _; exact List.nodup_nil
+    | cons a t ih =>
+      intro h
+      simp only [List.map_cons, List.nodup_cons] at h ⊢
+      exact ⟨fun hm => h.1 (List.mem_map.2 ⟨a, hm, rfl⟩), ih h.2⟩
+  have hs : (run (init cfg) ops).sent.Nodup := by
+    apply nodup_of_map_fst
+    rw [sent_ids_distinct]; exact List.nodup_range
+  refine ⟨?_, (calls_in_arrival_order cfg ops).nodup hs⟩
+  have := fifo cfg ops
+  rw [← this] at hs
+  exact (List.nodup_append.1 hs).1
+
+example : handled (run (init cfgEx) [.conn 1, .conn 0, .poll 9, .poll 9, .stop true, .conn 0, .poll 9]).log = [(0, 1), (1, 0), (2, 0)] := by decide
+
+/-- **Nothing leaks**: once the worker future has finished its channel is empty and every connection
+that was ever sent to it has been handed to its service, released by the `Shutdown` arm, or dropped
+with the channel — each exactly once (`no_connection_handled_twice`). -/
+theorem queued_connections_released_at_shutdown (cfg : Cfg) (ops : List Op) (hfin : (run (init cfg) ops).finished = true) :
+    (run (init cfg) ops).queue = [] ∧ handled (run (init cfg) ops).log = (run (init cfg) ops).sent := by
+  have hq := (More.run ops _ (More.init cfg) (Good.init cfg)).finq hfin
+  refine ⟨hq, ?_⟩
+  have := fifo cfg ops
+  rw [hq, List.append_nil] at this
+  exact this
+
+example : (run (init cfgEx) [.conn 1, .poll 9, .conn 0, .conn 1, .stop false, .poll 1]).finished = true ∧
+    handled (run (init cfgEx) [.conn 1, .poll 9, .conn 0, .conn 1, .stop false, .poll 1]).log = [(0, 1), (1, 0), (2, 1)] := by decide
+
 end ActixNet.C07
